@@ -91,6 +91,8 @@ func (a *GovChaosAgent) Step(s *Sim) {
 		p.InterestRateMax = sdkmath.LegacyMustNewDecFromStr(pick(r, []string{"0.17", "0.5", "3"}))
 		p.InterestRateMin = sdkmath.LegacyMustNewDecFromStr(pick(r, []string{"0.01", "0.12"}))
 		p.InterestRateIncrease = sdkmath.LegacyMustNewDecFromStr(pick(r, []string{"0.01", "0.2"}))
+		// the leveraged-LP utilisation limit: above 0.9 the vault's own 90 % borrow cap becomes the binding one
+		p.MaxLeverageRatio = sdkmath.LegacyMustNewDecFromStr(pick(r, []string{"0.7", "0.95", "2"}))
 		s.Gov.Propose(&stablestaketypes.MsgUpdateParams{Authority: gov, Params: &p})
 	}
 }
